@@ -3,6 +3,6 @@ SPECIFICATION Spec
 CONSTANTS MaxN = 4
           Ks = {1, 2, 3}
           MaxW = 3
-INVARIANTS AnswersLikeFullIndex AnswersAcceptable NeverOverAnswers
+INVARIANTS AnswersLikeFullIndex AnswersAcceptable NeverOverAnswers LabelValuesComplete
 PROPERTY Terminates
 CHECK_DEADLOCK FALSE
